@@ -219,5 +219,30 @@ pub const CLOSING: QlogConnectionState =
 pub const DRAINING: QlogConnectionState =
     QlogConnectionState::Granular(GranularConnectionStates::Draining);
 
-pub const CLOSED: QlogConnectionState =
-    QlogConnectionState::Granular(GranularConnectionStates::Closed);
+// Base closed and granular closed are the same state (both are logged as "closed"); the
+// state table only knows the base one, so that `update(CLOSED)` is an ordinary forward move.
+pub const CLOSED: QlogConnectionState = QlogConnectionState::Base(BaseConnectionStates::Closed);
+
+#[cfg(test)]
+mod tests {
+    use super::*;
+
+    #[test]
+    fn public_state_constants_have_codes() {
+        for state in [HANDSHAKE_CONFIRMED, CLOSING, DRAINING, CLOSED] {
+            assert_eq!(decode(encode(state)), Some(state));
+        }
+        assert!(encode(HANDSHAKE_CONFIRMED) < encode(CLOSING));
+        assert!(encode(CLOSING) < encode(DRAINING));
+        assert!(encode(DRAINING) < encode(CLOSED));
+    }
+
+    #[test]
+    fn update_to_closed_is_a_forward_move() {
+        let state = ArcConnState::new();
+        assert_eq!(state.update(DRAINING), Some(BaseConnectionStates::Attempted.into()));
+        assert_eq!(state.update(CLOSED), Some(DRAINING));
+        assert_eq!(state.current(), Some(CLOSED));
+        assert_eq!(state.update(CLOSING), None);
+    }
+}
